@@ -189,7 +189,9 @@ def _gen_cfg(rng, tier, fragile=None, big=False):
     nsys = int(rng.integers(3, 9))
     npts = [int(rng.integers(50, 401)) for _ in range(nsys)]
     if big:
-        npts[int(rng.integers(nsys))] = int(rng.integers(10500, 13000))
+        # more grid points than one integration block (10000), with lengths that are NOT multiples of the block count (a
+        # seeded "balanced blocks" helper dropped the last ngrid % nblocks points) and one that is
+        npts[int(rng.integers(nsys))] = int(_pick(rng, [10001, 10007, 12345, 20003, 20000]))
     spinpat = _pick(rng, ["1", "2", "mixed"], [0.3, 0.35, 0.35])
     nspins = [1 if spinpat == "1" else 2 if spinpat == "2" else int(rng.integers(1, 3)) for _ in range(nsys)]
     orbs = []
@@ -314,7 +316,7 @@ def gen_cases(tier, seed):
     cases = []
     idx = 1
     for i in range(nmain):
-        big = (i == 3) if tier == "quick" else (i % 25 == 3)
+        big = (i in (3, 11)) if tier == "quick" else (i % 25 in (3, 11))
         cfg = _gen_cfg(rng, tier, big=big)
         rx = _gen_rxns(rng, cfg)
         cases.append({"id": "h%03d-%s-%s-%s" % (i, cfg["gp"], cfg["layout"], "+".join(k["mode"] for k in cfg["kernels"])),
